@@ -8,6 +8,7 @@
 //                 away and finished on a borrowed slot)
 //   G:<i>         let child i (0-based start order) exit and wait until it is dead (its pipe end is readable)
 //   W             wait_all().await       R  release_mine()       Z  sleep(50ms).await     D  drain remaining job futures
+//   F             the root future returns an error now (jobs that are still running are abandoned)
 //   A-            another process takes a token from the pipe if one is there (counted in taken=)
 //   A+            another process puts a token into the pipe
 // Output: `VERIF-OUT <n> OK|ERR|PANIC result=<..> tokens=<bytes left in token pipe> cheats=<bytes left in cheat pipe>
@@ -144,6 +145,10 @@ fn run_line(line: &str) -> String {
                     }
                     "D" => {
                         while let Some(_) = jobs.next().await {}
+                    }
+                    "F" => {
+                        // the root future gives up while jobs are still running
+                        return Err(RedoError::new("boom"));
                     }
                     "A-" => {
                         let mut b = [0u8; 1];
